@@ -33,6 +33,7 @@ struct Frame {  // a datagram in flight / queued
 struct CanRec {
     uint32_t can_id = 0;
     uint8_t len = 0, flags = 0;
+    uint8_t dlc8 = 0;  // classic frames of 8 bytes: raw DLC 9..15 as reported by controllers in cc-len8-dlc mode (struct can_frame.len8_dlc)
     bool fd = false;
     uint8_t data[64] = {0};
     uint64_t tag = 0;  // workload index of the injected frame
@@ -51,6 +52,8 @@ struct FdEnt {
     bool canfd_enabled = false;
     int bus = -1;
     std::deque<CanRec> canq;
+    uint64_t rcvtimeo_ns = 0;     // SO_RCVTIMEO: a blocking read/recv gives up with EAGAIN after this long (0 = never)
+    uint64_t tx_busy_until = 0;   // CAN transmit queue model (see World::can_txq_cap)
     // timer (node-local CLOCK_REALTIME ns)
     bool armed = false;
     uint64_t next_expiry = 0, interval = 0, gen = 0;
@@ -82,6 +85,9 @@ struct Node {
     uint64_t handler_frame = 0;
     std::string stdout_line;        // partial printf line
     uint64_t pct_prio = 0;
+    // stack position at the listener's idle points (recv/poll/timer read): steady growth is a leak that ends in a crash
+    uint64_t sp_first = 0, sp_low = 0;
+    unsigned sp_deeper = 0;
 };
 
 struct Event {
@@ -110,6 +116,7 @@ struct Hooks {
     std::function<void(World &, int node, const std::string &line)> on_stdout_line;     // printf lines
     std::function<void(World &, int node, int code, bool via_exit)> on_task_exit;
     std::function<void(World &, int node)> on_handler_done;
+    std::function<void(World &, int node, uint64_t bytes, unsigned times)> on_stack_growth;
 };
 
 class World {
@@ -124,6 +131,10 @@ class World {
     uint64_t lat_lo = 20000, lat_hi = 200000;
     size_t rxq_cap = 64, canq_cap = 256;
     uint64_t clock_gran = 1;  // CLOCK_REALTIME as seen by the programs is quantised to this many ns (coarse clock sources exist)
+    // CAN transmit queue: at most this many frames wait for the bus (one leaves every can_tx_ns); a write that finds it
+    // full fails with ENOBUFS, as on real controllers (txqueuelen 10). 0 = unlimited (virtual CAN).
+    size_t can_txq_cap = 0;
+    uint64_t can_tx_ns = 120000;
     double can_read0_p = 0;  // cooperative fault point: read() on a CAN socket returns 0 (the talker explicitly retries on 0)
     uint64_t step_budget = 20000000ULL;
     uint64_t call_budget = 100000ULL;
